@@ -231,6 +231,96 @@ func (o *Obligation) query(vc *VC, model map[string]*Term) string {
 	return smtQuery(as, o.Goal, model != nil, model)
 }
 
+// relevantQuery: only the assumptions in the cone of influence of goal and path condition (sharing a non-heap
+// symbol, transitively). Dropping assumptions is sound for unsat answers.
+func (o *Obligation) relevantQuery(vc *VC) (string, int) {
+	facts := vc.facts[:o.NFacts]
+	cone := map[string]bool{}
+	for s := range vc.symbolsOf(o.Goal) {
+		cone[s] = true
+	}
+	for s := range vc.symbolsOf(o.Reach) {
+		cone[s] = true
+	}
+	used := make([]bool, len(facts))
+	for changed := true; changed; {
+		changed = false
+		for i, f := range facts {
+			if used[i] {
+				continue
+			}
+			syms := vc.symbolsOf(f)
+			hit := len(syms) == 0
+			for s := range syms {
+				if cone[s] {
+					hit = true
+					break
+				}
+			}
+			if hit {
+				used[i] = true
+				changed = true
+				for s := range syms {
+					cone[s] = true
+				}
+			}
+		}
+	}
+	var as []*Term
+	for i, f := range facts {
+		if used[i] {
+			as = append(as, f)
+		}
+	}
+	n := len(as)
+	as = append(as, o.Reach)
+	return smtQuery(as, o.Goal, false, nil), n
+}
+
+// symbolsOf: free non-array variables and uninterpreted function symbols of t (memoised per term)
+func (vc *VC) symbolsOf(t *Term) map[string]bool {
+	if vc.symCache == nil {
+		vc.symCache = map[int]map[string]bool{}
+	}
+	if s, ok := vc.symCache[t.id]; ok {
+		return s
+	}
+	out := map[string]bool{}
+	seen := map[int]bool{}
+	var walk func(t *Term)
+	walk = func(t *Term) {
+		if seen[t.id] {
+			return
+		}
+		seen[t.id] = true
+		switch t.Op {
+		case "var":
+			if t.S.Name != "Array" {
+				out[t.Name] = true
+			}
+		case "app":
+			switch t.Name {
+			case "strlen", "concat", "rootid":
+			default:
+				if len(t.Args) == 0 || t.Name == "errmsg" {
+					out["f:"+t.Name] = len(t.Args) == 0
+				}
+			}
+		}
+		for _, a := range t.Args {
+			walk(a)
+		}
+	}
+	walk(t)
+	for k, v := range out {
+		if !v {
+			delete(out, k)
+		}
+	}
+	vc.symCache[t.id] = out
+	return out
+}
+
 // discharge all open obligations of vc; queries are written under dir
 func (vc *VC) discharge(dir string, timeout int, thorough bool) {
 	type job struct {
@@ -243,7 +333,15 @@ func (vc *VC) discharge(dir string, timeout int, thorough bool) {
 			continue
 		}
 		file := filepath.Join(dir, fmt.Sprintf("%s_%d.smt2", sanitize(vc.prog.shortName(vc.top)), i))
-		if err := os.WriteFile(file, []byte("; "+o.Name+"\n"+o.query(vc, nil)), 0o644); err != nil {
+		q := o.query(vc, nil)
+		if o.Expect == "unsat" {
+			rq, n := o.relevantQuery(vc)
+			if n < o.NFacts {
+				os.WriteFile(file+".full", []byte("; "+o.Name+" (all assumptions)\n"+q), 0o644)
+				q = rq
+			}
+		}
+		if err := os.WriteFile(file, []byte("; "+o.Name+"\n"+q), 0o644); err != nil {
 			o.Status, o.Output = "unknown", err.Error()
 			continue
 		}
@@ -300,6 +398,22 @@ func solveOne(o *Obligation, file string, timeout int, thorough bool) {
 		return
 	}
 	agree := 0
+	if _, err := os.Stat(file + ".full"); err == nil {
+		// first the query restricted to the cone of influence; any other answer than unsat falls back to the full query
+		v, _, secs := runSolver(solvers[0], file, timeout)
+		o.Time += secs
+		log = append(log, fmt.Sprintf("%s (relevant assumptions only): %s (%.2fs)", solvers[0].name, v, secs))
+		if v == "unsat" && !thorough {
+			o.Status, o.Solver = "discharged", solvers[0].name
+			o.Output = strings.Join(log, "\n")
+			return
+		}
+		if v == "unsat" {
+			agree++
+			o.Solver = solvers[0].name
+		}
+		file = file + ".full"
+	}
 	for si, s := range solvers {
 		v, out, secs := runSolver(s, file, timeout)
 		o.Time += secs
